@@ -324,10 +324,16 @@ AnyValueCall(s, args) ==
             THEN DE("already_declared")
           ELSE DOk([s EXCEPT !.types = Some(FlattenAny([i \in DOMAIN args |-> args[i].sch]))]))
 
+\* the | operator (Schema.__or__ = union): schema.any(self, other), for a receiver of any type
+ApplyOr(s, v) ==
+  IF ~IsSchemaArg(v) THEN DE("invalid_type")
+  ELSE DOk([t |-> "any", types |-> Some(FlattenAny(<<s, v.sch>>))])
+
 (***************************************************************************)
 (* dispatch                                                                *)
 (***************************************************************************)
 Apply(s, c) ==
+  IF c.m = "or" THEN ApplyOr(s, Arg(c, 1)) ELSE
   CASE s.t = "int" -> ApplyInt(s, c)
     [] s.t = "float" -> ApplyFloat(s, c)
     [] s.t = "str" -> ApplyStr(s, c)
